@@ -5,12 +5,12 @@ ID=$1; VAR=$2
 BASE=${SEEDBASE:-/tmp/seed}; WT=$BASE/$ID/wt; OUT=$BASE/$ID/out/$VAR
 LOG=$OUT/confirm.log; : > $LOG
 README=$OUT/demo/README.md
-PKG=$(grep -o "cargo test -p inkayaku_[a-z_]*" $README | head -1 | awk '{print $4}')
+PKG=$(grep -o "\-p inkayaku_[a-z_]*" $README | head -1 | awk '{print $2}')
 NAME=$(grep -o "\-\-test [A-Za-z0-9_]*" $README | head -1 | awk '{print $2}')
 DIR=${PKG#inkayaku_}
 cd $WT || exit 2
 git checkout -q -- . ; git clean -fdq -e target
-INSTALL=$(ls $OUT/demo/install_mod_line.diff $OUT/demo/hook.diff 2>/dev/null | head -1)
+INSTALL=$(ls $OUT/demo/install_mod_line.diff $OUT/demo/hook.diff $OUT/demo/demo.diff 2>/dev/null | head -1)
 # special layouts: DEMO_DEST = directory the demo .rs goes to, DEMO_APPEND = "file::line" appended while the demo is installed
 DEST=${DEMO_DEST:-engine_core/src/engine}
 DEMOFILES=$(find $OUT/demo -name '*.rs')
